@@ -18,7 +18,7 @@ REQUIRED_THEOREMS = [
     "Cv.C16.checked_rejects_length", "Cv.C16.checked_rejects_unsorted", "Cv.C16.checked_eq_unchecked",
     "Cv.C16.panic_mode_rejects", "Cv.C16.checked_total", "Cv.C16.sortedOk_of_nondecreasing", "Cv.C16.interpAll_eq_some_iff", "Cv.C16.interpAll_eq_none_iff",
 ]
-RULE = ("knot counts 2..200, strictly increasing abscissae with neighbouring spacing ratios up to 1e6, finite ordinates of "
+RULE = ("calls with 4095..10001 (thorough: ..20000) unsorted targets incl. knots, +-1 ulp and out-of-range targets at indices >= 4096; knot counts 2..200, strictly increasing abscissae with neighbouring spacing ratios up to 1e6, finite ordinates of "
         "mixed magnitude; targets at every kind of position (knots, midpoints, +-1 ulp around knots, random interior, just "
         "beyond and far beyond both ends); three modes x checked/unchecked; rejected inputs (unsorted, mismatched lengths); "
         "degenerate inputs (n = 0, 1, ties, NaN) compared with the model only; non-trivial = distinct request")
@@ -41,10 +41,24 @@ U = 2.0 ** -53
 TINY = 2.0 ** -1074
 
 
+def corpus_many():
+    """Round-10 seed C16w (bracket search running ahead over blocks of 4096 targets): 7 knots, 4097 / 8193 targets in a fixed
+    pseudo-random order; target #4096 is a knot, late targets lie outside the range on both sides."""
+    xs = [0.0, 1.0, 2.5, 3.0, 7.0, 8.0, 10.0]
+    ys = [1.0, -2.0, 4.0, 0.5, 9.0, -3.0, 6.0]
+    ts = [((i * 7919) % 10007) / 1000.7 for i in range(4096)]          # all inside [0, 10], unsorted
+    late = [7.0, 12.0, 2.5, -1.0, 9.5, 10.0, 0.0, 0.25]
+    out = ["interp chk extrap %s %s %s" % (vec(xs), vec(ys), vec(ts + [7.0])),
+           "interp unc fill %s %s %s %s %s" % (f2h(-5.0), f2h(5.0), vec(xs), vec(ys), vec(ts + late)),
+           "interp chk panic %s %s %s" % (vec(xs), vec(ys), vec(ts + [3.0, 12.0])),
+           "interp unc panic %s %s %s" % (vec(xs), vec(ys), vec(ts + ts + [10.0]))]
+    return out
+
+
 def corpus():
     x = vec([0.0, 1.0, 2.0])
     y = vec([0.0, 10.0, 20.0])
-    return [
+    return corpus_many() + [
         # F28: right of the last abscissa the panic mode returned a value and the fill mode extrapolated
         "interp chk fill %s %s %s %s %s" % (f2h(-1.0), f2h(-2.0), x, y, vec([3.0])),
         "interp chk panic %s %s %s" % (x, y, vec([3.0])),
@@ -206,6 +220,13 @@ def gen(rng, tier):
                 xs = [rng.normal() for _ in range(n)]
                 add("n<2(model-only)", "interp %s %s %s %s %s" % (variant, mode, vec(xs), vec(xs), vec([rng.normal() for _ in range(rng.randint(0, 3))])))
     strata(rng.fork("strata"), add, quick)
+    r2 = rng.fork("many-targets")
+    if quick:
+        counts = [4097, r2.choice([8193, 10001])] + r2.shuffle([4095, 4096, 4100, 6000, 8191, 8192])[:2]
+        for m in counts:
+            many_lines(r2, add, [m], [r2.choice(MANY_KNOTS), r2.choice(MANY_KNOTS)], "many_targets")
+    else:
+        many_lines(r2, add, MANY_COUNTS_THOROUGH, MANY_KNOTS, "many_targets")
     return lines, cover
 
 
@@ -314,6 +335,67 @@ def strata(rng, add, quick):
             for k in (400, -400, 3):
                 f = 2.0 ** k
                 add("scale_abscissae", "interp chk %s %s %s %s" % (ms, vec([v * f for v in xs]), vec(ys), vec([v * f for v in ts])))
+
+
+
+# ------------------------------------------------------------------------------------------ many targets (late-iteration regime)
+MANY_COUNTS = [4095, 4096, 4097, 4100, 6000, 8191, 8192, 8193, 10001]
+MANY_COUNTS_THOROUGH = MANY_COUNTS + [16385, 20000]
+MANY_KNOTS = [2, 7, 8, 16, 25, 100]
+
+
+def many_targets(rng, xs, m, with_outside):
+    """m unsorted targets: random interior positions, knots, +-1 ulp of knots and (optionally) out-of-range values on both sides;
+    the special ones are placed at indices >= 4096 when m allows (index 4096 is always a knot), the rest is shuffled."""
+    up = lambda v: math.nextafter(v, math.inf)
+    dn = lambda v: math.nextafter(v, -math.inf)
+    n = len(xs)
+    special = []
+    for k in sorted({0, n - 1, n // 2, rng.randint(0, n - 1), rng.randint(0, n - 1)}):
+        special += [xs[k]]
+        if k + 1 < n:
+            special.append(up(xs[k]))
+        if k > 0:
+            special.append(dn(xs[k]))
+    special += [xs[-2] + (xs[-1] - xs[-2]) / 2, xs[0] + (xs[1] - xs[0]) / 2]
+    if with_outside:
+        span = xs[-1] - xs[0]
+        special += [up(xs[-1]), dn(xs[0]), xs[-1] + span * rng.loguniform(1e-3, 10), xs[0] - span * rng.loguniform(1e-3, 10),
+                    xs[-1] + rng.loguniform(1e-6, 1e3), xs[0] - rng.loguniform(1e-6, 1e3)]
+    rng.shuffle(special)
+    special = special[:max(1, min(len(special), m // 2))]
+    body = inside_targets(rng, xs, m - len(special))
+    rng.shuffle(body)
+    if m > 4096 + len(special):
+        # first 4096 slots: plain interior targets; then a knot at index 4096 followed by the other special targets, spread out
+        head, tail = body[:4096], body[4096:]
+        knot = xs[rng.randint(0, n - 1)]
+        rest = [knot] + special
+        # interleave: specials at 4096, 4097, ... and a few at the very end
+        cut = len(rest) // 2
+        out = head + rest[:cut + 1] + tail + rest[cut + 1:]
+        return out[:m] if len(out) >= m else out + [knot] * (m - len(out))
+    out = body + special
+    return out[:m]
+
+
+def many_lines(rng, add, counts, knot_counts, kind):
+    for m in counts:
+        for n in knot_counts:
+            xs = knots(rng, n)
+            ys = ordinates(rng, n)
+            l, r = rng.normal() * 1e3, rng.normal()
+            tin = many_targets(rng, xs, m, False)
+            tmix = many_targets(rng, xs, m, True)
+            v = rng.choice([("chk", "unc"), ("unc", "chk")])
+            add(kind, "interp %s extrap %s %s %s" % (v[0], vec(xs), vec(ys), vec(tmix)))
+            add(kind, "interp %s fill %s %s %s %s %s" % (v[1], f2h(l), f2h(r), vec(xs), vec(ys), vec(tmix)))
+            add(kind, "interp %s panic %s %s %s" % (v[0], vec(xs), vec(ys), vec(tin)))
+            # panic mode with its only outside target late in the call (index >= 4096 when there is one)
+            tp = list(tin)
+            pos = rng.randint(4096, m - 1) if m > 4096 else m - 1
+            tp[pos] = rng.choice([math.nextafter(xs[-1], math.inf), math.nextafter(xs[0], -math.inf), xs[-1] + 1.0, xs[0] - 1.0])
+            add(kind, "interp %s panic %s %s %s" % (v[1], vec(xs), vec(ys), vec(tp)))
 
 
 
@@ -521,3 +603,9 @@ NOT_PROVED = [("rounding OUTSIDE the standard model: FlModel has neither overflo
 REQUIRED_THEOREMS = REQUIRED_THEOREMS + [t for t in [
     "Cv.C16.sortedOk_iff", "Cv.C16.unchecked_eq_some_iff", "Cv.C16.interpOne_isSome_inside", "Cv.C16.interpOne_isSome_of_not_panic",
     "Cv.C16.idxOf_left", "Cv.C16.idxOf_right", "Cv.C16.scan_before", "Cv.C16.scan_at", "Cv.C16.scan_all"] if t not in REQUIRED_THEOREMS]
+
+# pointwise / concatenation theorems for the loop over the targets (round-10 seed C16w)
+PROOF_MODULES = PROOF_MODULES + [m for m in ["Compute.Props.C16Pointwise"] if m not in PROOF_MODULES]
+REQUIRED_THEOREMS = REQUIRED_THEOREMS + [t for t in [
+    "Cv.C16.interpAll_pointwise", "Cv.C16.interpAll_append", "Cv.C16.interpUnchecked_append", "Cv.C16.interpChecked_append",
+    "Cv.C16.interpAll_slot"] if t not in REQUIRED_THEOREMS]
